@@ -652,6 +652,8 @@ def run(ctx):
     ctx.guard("limbpoly", "fe32", lambda: check_field_ops(ctx, P2, "fe32", "K2"))
     from . import sc32
     ctx.guard("decode32", "fe32::from_bytes", lambda: sc32.check_decode32(ctx, P2))
+    ctx.guard("table", "Scalar::ZERO/64", lambda: sc32.check_scalar_consts(ctx, P, "scalar64"))
+    ctx.guard("table", "Scalar::ZERO/32", lambda: sc32.check_scalar_consts(ctx, P2, "scalar32"))
     ctx.guard("sc", "scalar32::reduce", lambda: sc32.check_scalar32(ctx, P2, "reduce"))
     ctx.guard("sc", "scalar32::muladd", lambda: sc32.check_scalar32(ctx, P2, "muladd"))
     if ctx.tier == "thorough":
